@@ -588,8 +588,13 @@ def rule_located_errors(ctx):
             call = node.exc
             location = call.args[1] if len(call.args) >= 2 else next((k.value for k in call.keywords if k.arg == "location"), None)
             what = "%s:%d raise InterfaceError carries a location" % (qualname.replace("cutplace.", ""), node.lineno)
-            embeds_located = any(isinstance(a, ast.Call) and ast.unparse(a).startswith("str(error") for a in call.args[:1]) or \
-                (call.args and "error" in {n.id for n in ast.walk(call.args[0]) if isinstance(n, ast.Name)})
+            # the whole text of the caught error (str(error), "%s" % error) contains its location; a part of it
+            # (error.message, error.args[0]) does not
+            embeds_located = False
+            if call.args:
+                partial = {id(n.value) for n in ast.walk(call.args[0]) if isinstance(n, (ast.Attribute, ast.Subscript))}
+                caught = {h.name for h in walk_own(func.node) if isinstance(h, ast.ExceptHandler) and h.name}
+                embeds_located = any(isinstance(n, ast.Name) and n.id in caught and id(n) not in partial for n in ast.walk(call.args[0]))
             if location is not None and not (isinstance(location, ast.Constant) and location.value is None):
                 text = ast.unparse(location)
                 if isinstance(location, ast.Constant):
@@ -607,4 +612,6 @@ def rule_located_errors(ctx):
                              "InterfaceError raised without a location on a path from Cid.read that no handler completes: the rejection does not name the offending row")
 
 
-RULES = [rule_row_dispatch, rule_row_order, rule_field_names, rule_field_row, rule_check_row, rule_is_unique_rule, rule_distinct_count_rule, rule_located_errors]
+from .common import rule_module_state  # noqa: E402
+
+RULES = [rule_row_dispatch, rule_row_order, rule_field_names, rule_field_row, rule_check_row, rule_is_unique_rule, rule_distinct_count_rule, rule_located_errors, rule_module_state]
